@@ -34,6 +34,12 @@ PROPS = {
         'quick': 20000,
         'thorough': 500000,
     },
+    'C08': {
+        'level': 'exploration',
+        'strata': [('scripted-linker', 'linker', 1.0)],
+        'quick': 12000,
+        'thorough': 300000,
+    },
     'C09': {
         'level': 'exploration',
         'strata': [('histories', 'container', 1.0)],
